@@ -6,6 +6,7 @@ import (
 	"compress/zlib"
 	"context"
 	"encoding/binary"
+	"github.com/mongodb/ftdc/verifhook"
 	"io"
 	"io/ioutil"
 
@@ -27,6 +28,7 @@ func readDiagnostic(ctx context.Context, f io.Reader, ch chan<- *birch.Document)
 			}
 			return err
 		}
+		verifhook.Point("readDiagnostic.send")
 		select {
 		case ch <- doc:
 			continue
@@ -150,6 +152,7 @@ func readChunks(ctx context.Context, ch <-chan *birch.Document, o chan<- *Chunk)
 			return errors.Wrap(err, "problem reading compressed metrics")
 		}
 
+		verifhook.Point("readChunks.send")
 		select {
 		case o <- &Chunk{
 			Metrics:   metrics,
